@@ -60,7 +60,14 @@ class ProducerWorld(ClientWorld):
 
         def spr(payloads=None, *a, **kw):
             idx_by_tp = self.note_call(payloads or [])
+            c08 = None
+            if self.PROP == "C08":
+                st = self.__dict__.setdefault("_c08", {"stale": {}, "last_meta": -1, "n": 0})
+                tps = [(p_.topic, p_.partition) for p_ in payloads or []]
+                c08 = (len(self.produce_reqs), {tp: st["stale"][tp] for tp in tps if tp in st["stale"]}, tps)
             d = orig_spr(payloads, *a, **kw)
+            if c08 is not None:
+                d.addBoth(self.c08_call_done, c08)
 
             def seen(res):
                 # what the client reports back to the producer for this attempt (pass-through observer)
@@ -88,6 +95,30 @@ class ProducerWorld(ClientWorld):
         self._clock_seen = 0
         self.batch_resolved_times = []
         self.value_owner = {}  # value bytes -> (send index, message index)
+
+    def c08_call_done(self, res, c08):
+        """C08 at the producer -> client seam: a produce call none of whose payloads reached a connection is a failed
+        send (whatever the client reports): the partition's cached routing must be re-resolved -- a metadata
+        request -- before the next call for it completes."""
+        n0, stale_at_start, tps = c08
+        st = self._c08
+        for tp, mark in stale_at_start.items():
+            if st["last_meta"] < mark and st["stale"].get(tp) == mark:
+                self.viol("self-heal", "failed-send-did-not-invalidate-routing",
+                          "a produce call for %s/%d completed without any metadata request although the previous "
+                          "call for it had failed without reaching a connection" % tp)
+        written = set(tp for (_s, _t, _r, content) in self.produce_reqs[n0:] for tp in content)
+        from twisted.python.failure import Failure
+        if isinstance(res, Failure):
+            if not res.check(FailedPayloadsError):
+                return res  # refused before routing (no leader, unknown topic, cancelled ...): not a send
+            failed = set((p_.topic, p_.partition) for p_, _f in (res.value.args[1] if len(res.value.args) > 1 else []))
+            tps = [tp for tp in tps if tp in failed]
+        for tp in tps:
+            if tp not in written and self.stop_called_step is None:
+                st["n"] += 1
+                st["stale"][tp] = st["n"]
+        return res
 
     # ------------------------------------------------------------------ app
     def do_app(self, op):
